@@ -201,6 +201,9 @@ func (eng *Engine) extLemmaBefore(fc *FnCtx, env *SpecEnv, l *Lemma) error {
 		if ax.Pkg != l.Pkg && !strings.HasSuffix(strings.SplitN(ax.Src, ":", 2)[0], ".spec") {
 			continue
 		}
+		if !axiomInScope(ax, l.Props) {
+			continue // property-scoped axioms (`axiom @Cnn`, ext_lemma_axioms.go) stay out of the lemmas of other properties
+		}
 		aenv := &SpecEnv{fc: fc, vars: map[string]SV{}, cur: env.cur, old: env.old, pkg: eng.pkgOfSpec(&FuncSpec{Pkg: ax.Pkg})}
 		t, e := aenv.evalBool(ax.E)
 		if e != nil {
@@ -309,9 +312,11 @@ func (e *SpecEnv) extRecFrame(sf *SpecFn, n *SpecEnv, name string, comps []strin
 	bodyB, callB := side("b")
 	// the two applications may spell their (equal) last arguments differently (i+1 vs. a wrapped addition): match any pair and
 	// require the equality, instead of relying on the e-graph to have merged the two index terms
-	decls = append(decls, "(xn Int)", "(xm Int)")
-	callB = strings.TrimSuffix(callB, " xn)") + " xm)"
-	ax := fmt.Sprintf("(assert (forall (%s) (! (=> (and (= xn xm) (forall ((xk Int) (xr %s)) (=> (<= xk xn) (= %s %s)))) (= %s %s)) :pattern (%s %s))))",
+	// trigger: a pair of applications with the SAME last argument (E-matching is modulo the congruence closure, which the
+	// arithmetic solver feeds with the equalities of shared index terms). Matching ANY pair (n == m as a hypothesis) was tried:
+	// it doubles the cost of every check of a function with several heap versions and is not needed.
+	decls = append(decls, "(xn Int)")
+	ax := fmt.Sprintf("(assert (forall (%s) (! (=> (forall ((xk Int) (xr %s)) (=> (<= xk xn) (= %s %s))) (= %s %s)) :pattern (%s %s))))",
 		strings.Join(decls, " "), retSort, bodyA, bodyB, callA, callB, callA, callB)
 	fc.ufAxioms[name] += "\n" + ax
 	fc.assumes["rec spec "+sf.Pkg+"."+sf.Name+": congruence (frame) theorem, by induction on its last parameter"] = true
